@@ -4,6 +4,7 @@
 // NetModel::solveWithPenalty.  The `tsan` build of this same file runs the
 // global placer under ThreadSanitizer.
 #include <sched.h>
+#include <sys/wait.h>
 #include <unistd.h>
 
 #include <chrono>
@@ -153,10 +154,151 @@ std::string firstDiff(const RunOut &a, const RunOut &b) {
     }
   return "size";
 }
+
+struct Case {
+  int stage = 0;
+  GenOpts o;
+  CircuitSpec s;
+  ColoquinteParameters params{3, 0};
+};
+
+/// Decode the case (shared by the worker and by the fresh-process helper).
+void decodeCase(Tape &t, bool thorough, Case &k) {
+  int stage = t.weighted({5, 2, 2});
+  GenOpts o;
+  o.maxCells = thorough ? 24 : 12;
+  o.maxLevels = 6;
+  if (stage == kGlobal) {
+    o.globalDomain = true;
+    o.anchorPct = 100;
+    o.overfull = false;
+  }
+  CircuitSpec s = genCircuit(t, o);
+  ParamOpts po;
+  po.global = stage == kGlobal;
+  po.maxNbSteps = thorough ? 30 : 15;
+  ColoquinteParameters params = genParams(t, po, &s.labels);
+  if (stage == kGlobal && t.flip(2, 3)) params.global.noise = t.flip() ? 1e-4 : 0.5;  // the RNG is really used
+  if (stage == kGlobal && params.global.maxNbSteps < 3) params.global.maxNbSteps = 3 + params.global.nbInitialSteps;
+  k.stage = stage;
+  k.o = o;
+  k.s = s;
+  k.params = params;
+}
+
+// ---------------------------------------------------------------- fresh process
+// A helper process forked before this process has run any placement; for every
+// request it forks a grandchild that has therefore never executed library code,
+// runs the reference placement of the case there and returns the solution.
+struct Zygote {
+  int wfd = -1, rfd = -1;
+  bool tried = false;
+} gZ;
+
+bool readAll(int fd, void *buf, size_t n) {
+  char *p = (char *)buf;
+  while (n > 0) {
+    ssize_t r = read(fd, p, n);
+    if (r <= 0) return false;
+    p += r, n -= (size_t)r;
+  }
+  return true;
+}
+bool writeAll(int fd, const void *buf, size_t n) {
+  const char *p = (const char *)buf;
+  while (n > 0) {
+    ssize_t r = write(fd, p, n);
+    if (r <= 0) return false;
+    p += r, n -= (size_t)r;
+  }
+  return true;
+}
+
+void zygoteLoop(int rfd, int wfd) {
+  for (;;) {
+    uint32_t hdr[2];
+    if (!readAll(rfd, hdr, sizeof hdr)) _exit(0);
+    std::vector<uint32_t> words(hdr[1]);
+    if (hdr[1] && !readAll(rfd, words.data(), hdr[1] * 4)) _exit(0);
+    int pfd[2];
+    if (pipe(pfd) != 0) _exit(0);
+    pid_t pid = fork();
+    if (pid == 0) {
+      close(pfd[0]);
+      alarm(120);
+      Tape t(words);
+      Case k;
+      decodeCase(t, hdr[0] != 0, k);
+      gSched.reset(kFree, {});
+      RunOut r = runOnce(k.s.build(), k.stage, k.params, false);
+      std::vector<int32_t> out;
+      out.push_back(r.returned ? 1 : 0);
+      out.push_back((int32_t)r.sol.size());
+      for (auto &c : r.sol) out.push_back(c.position.x), out.push_back(c.position.y), out.push_back((int32_t)c.orientation);
+      writeAll(pfd[1], out.data(), out.size() * 4);
+      _exit(0);
+    }
+    close(pfd[1]);
+    std::vector<int32_t> got;
+    int32_t v;
+    while (readAll(pfd[0], &v, 4)) got.push_back(v);
+    close(pfd[0]);
+    int st;
+    waitpid(pid, &st, 0);
+    int32_t n = (int32_t)got.size();
+    if (n < 2 || (int32_t)got.size() != 2 + 3 * got[1]) n = -1;
+    writeAll(wfd, &n, 4);
+    if (n > 0) writeAll(wfd, got.data(), (size_t)n * 4);
+  }
+}
+
+void ensureZygote() {
+  if (gZ.tried) return;
+  gZ.tried = true;
+  int a[2], b[2];
+  if (pipe(a) != 0 || pipe(b) != 0) return;
+  fflush(nullptr);
+  pid_t pid = fork();
+  if (pid < 0) return;
+  if (pid == 0) {
+    close(a[1]), close(b[0]);
+    zygoteLoop(a[0], b[1]);
+    _exit(0);
+  }
+  close(a[0]), close(b[1]);
+  gZ.wfd = a[1];
+  gZ.rfd = b[0];
+}
+
+/// Reference run of the case in a process that has never run a placement.
+bool freshProcessRun(const Tape &t, bool thorough, RunOut &out) {
+  if (gZ.wfd < 0) return false;
+  uint32_t hdr[2] = {thorough ? 1u : 0u, (uint32_t)t.w.size()};
+  if (!writeAll(gZ.wfd, hdr, sizeof hdr)) return false;
+  if (!t.w.empty() && !writeAll(gZ.wfd, t.w.data(), t.w.size() * 4)) return false;
+  int32_t n;
+  if (!readAll(gZ.rfd, &n, 4) || n < 2) return false;
+  std::vector<int32_t> got(n);
+  if (!readAll(gZ.rfd, got.data(), (size_t)n * 4)) return false;
+  out.returned = got[0] != 0;
+  out.sol.clear();
+  for (int i = 0; i < got[1]; ++i) out.sol.emplace_back(got[2 + 3 * i], got[3 + 3 * i], (CellOrientation)got[4 + 3 * i]);
+  return true;
+}
 }  // namespace
 
 bool prop(Tape &t, Report &R) {
+#ifndef VERIF_TSAN
+  ensureZygote();  // before this process runs any placement
+#endif
   coloquinte::verif::solveHook = &hookTrampoline;
+  Case kase;
+  decodeCase(t, R.thorough(), kase);
+  int stage = kase.stage;
+  GenOpts o = kase.o;
+  CircuitSpec s = kase.s;
+  ColoquinteParameters params = kase.params;
+#if 0
   int stage = t.weighted({5, 2, 2});
   GenOpts o;
   o.maxCells = R.thorough() ? 24 : 12;
@@ -173,6 +315,7 @@ bool prop(Tape &t, Report &R) {
   ColoquinteParameters params = genParams(t, po, &s.labels);
   if (stage == kGlobal && t.flip(2, 3)) params.global.noise = t.flip() ? 1e-4 : 0.5;  // the RNG is really used
   if (stage == kGlobal && params.global.maxNbSteps < 3) params.global.maxNbSteps = 3 + params.global.nbInitialSteps;
+#endif
   s.labels.insert(std::string("stage:") + stageName(stage));
   for (auto &l : s.labels) R.classify(l);
   if (s.nbMovable() == 0) {
@@ -186,6 +329,30 @@ bool prop(Tape &t, Report &R) {
   Circuit base = s.build();
   long pairs0 = gSched.pairs, enforced0 = gSched.enforced, firstOk0 = gSched.firstOk, gaveUp0 = gSched.gaveUp;
   gSched.reset(kFree, {});
+#ifndef VERIF_TSAN
+  // history prefix: an unrelated placement (its own noise, seed, effort) runs
+  // in this process BEFORE the reference run, so that state leaking from one
+  // run into the next shows up against the fresh-process result below and is
+  // reproducible from this single tape
+  {
+    uint32_t hw = t.next();
+    if (hw & 1u) {
+      Tape t2;
+      t2.w = {hw >> 1, hw * 2654435761u, hw ^ 0x9e3779b9u, 7u, 9u, 11u, 13u, 17u, 19u, 23u, 29u, 31u};
+      GenOpts o2 = o;
+      o2.maxCells = 6;
+      CircuitSpec other = genCircuit(t2, o2);
+      if (other.nbMovable() > 0 && (stage != kGlobal || unanchoredComponents(other).empty())) {
+        ColoquinteParameters p2(1 + (int)((hw >> 3) % 9), (int)((hw >> 8) % 100));
+        static const double nz[] = {1e-4, 0.5, 0.02, 1.5};
+        p2.global.noise = nz[(hw >> 16) % 4];
+        p2.global.maxNbSteps = 6;
+        (void)runOnce(other.build(), stage, p2, false);
+        R.classify("history:unrelated-run-first");
+      }
+    }
+  }
+#endif
   RunOut ref = runOnce(base, stage, params, false);
 
 #ifdef VERIF_TSAN
@@ -205,6 +372,19 @@ bool prop(Tape &t, Report &R) {
     Circuit copy = base;
     RunOut r3 = runOnce(copy, stage, params, false);
     if (!same(ref, r3)) return R.fail(std::string(stageName(stage)) + " gives another result on a copy: " + firstDiff(ref, r3) + " " + s.json());
+  }
+  // the same run in a process that has never executed a placement before
+  {
+    RunOut fresh;
+    Tape whole;
+    whole.w = t.w;
+    if (freshProcessRun(whole, R.thorough(), fresh)) {
+      R.classify("compared-with-a-fresh-process");
+      if (!same(ref, fresh))
+        return R.fail(std::string(stageName(stage)) + " result in this process (after other runs) differs from the result in a fresh process: " + firstDiff(ref, fresh) + " " + s.json());
+    } else {
+      R.classify("fresh-process-helper-unavailable");
+    }
   }
   // with an observing callback
   RunOut rcb = runOnce(base, stage, params, true);
